@@ -15,7 +15,10 @@
 // stdin:  workers N | seed S | perturb P(percent) | client <op>...  (one line per client thread) | final wait|nowait
 //         op = a:<dur_us>:<kind>   add a task; kind v (returns a value) x (throws) u (void) n<k> (its body adds k tasks)
 //              w                   call wait()
+//              W:<max>             call wait() again and again (at most <max> times) until every other client thread has
+//                                  finished its operations, then once more (wait() concurrent with addTask)
 //              s:<us>              sleep
+//         stall <ms>               if nothing is logged for <ms> although the run is not over, dump the log + HANG, exit 7
 // stdout: the log (one event per line:  <thread> <KIND> <arg>), WORKER lines, FUTURE lines.
 #include <atomic>
 #include <chrono>
@@ -217,8 +220,28 @@ static void add_task(long dur, const std::string& kind) {
   }
 }
 
+static std::atomic<int> plain_clients_running{0};
+
 static void client(const std::vector<std::string>& ops) {
+  bool hammer = false;
+  for (const auto& op : ops) hammer = hammer || op[0] == 'W';
+  struct Done {
+    bool h;
+    ~Done() { if (!h) plain_clients_running.fetch_sub(1); }
+  } done{hammer};
   for (const auto& op : ops) {
+    if (op[0] == 'W') {
+      const long maxn = std::atol(op.c_str() + 2);
+      for (long i = 0; i < maxn && plain_clients_running.load() > 0; ++i) {
+        logev(WAIT_CALL);
+        pool->wait();
+        logev(WAIT_RET);
+      }
+      logev(WAIT_CALL);
+      pool->wait();
+      logev(WAIT_RET);
+      continue;
+    }
     if (op[0] == 'a') {
       const auto p1 = op.find(':'), p2 = op.find(':', p1 + 1);
       add_task(std::atol(op.substr(p1 + 1, p2 - p1 - 1).c_str()), op.substr(p2 + 1));
@@ -261,9 +284,25 @@ static void watchdog(long seconds) {
   _exit(7);
 }
 
+// same purpose, quicker: every thread of the process is blocked
+static void stall_monitor(long ms) {
+  long last = -1;
+  for (;;) {
+    sleep_us(ms * 1000);
+    const long n = nlog.load();
+    if (n == last) {
+      std::string out = dump_log() + "HANG\n";
+      std::fwrite(out.data(), 1, out.size(), stdout);
+      std::fflush(stdout);
+      _exit(7);
+    }
+    last = n;
+  }
+}
+
 int main() {
   evlog = static_cast<Event*>(std::calloc(LOGMAX, sizeof(Event)));  // kind is stored +1: 0 = not written yet
-  long watchdog_s = 60;
+  long watchdog_s = 60, stall_ms = 0;
   int nworkers = 2;
   bool final_wait = true;
   std::vector<std::vector<std::string>> clients;
@@ -276,6 +315,7 @@ int main() {
     else if (w == "seed") is >> seed;
     else if (w == "perturb") is >> perturb;
     else if (w == "watchdog") is >> watchdog_s;
+    else if (w == "stall") is >> stall_ms;
     else if (w == "final") { std::string f; is >> f; final_wait = (f == "wait"); }
     else if (w == "client") {
       clients.emplace_back();
@@ -284,6 +324,7 @@ int main() {
     }
   }
   std::thread(watchdog, watchdog_s).detach();
+  if (stall_ms > 0) std::thread(stall_monitor, stall_ms).detach();
   alignas(ThreadPool) static char buf[sizeof(ThreadPool)];
   pool = reinterpret_cast<ThreadPool*>(buf);
   pool_mutex = reinterpret_cast<pthread_mutex_t*>(&pool->m);   // std::mutex holds its pthread_mutex_t first
@@ -297,6 +338,11 @@ int main() {
   }
   {
     std::vector<std::thread> ths;
+    for (const auto& c : clients) {
+      bool hammer = false;
+      for (const auto& op : c) hammer = hammer || op[0] == 'W';
+      if (!hammer) plain_clients_running.fetch_add(1);
+    }
     for (const auto& c : clients) ths.emplace_back([&c] { client(c); });
     for (auto& t : ths) t.join();
   }
